@@ -47,6 +47,8 @@ StepOf(e) == CASE e.ev = "WRecvBootstrap" -> WRecvBootstrap(e.arg)
                [] e.ev = "WRecvDrive" -> WRecvDrive(e.arg)
                [] e.ev = "WRecvCCT" -> WRecvCCT(e.arg)
                [] e.ev = "WWakeup" -> WWakeup(e.arg)
+               [] e.ev = "WWakeupA" -> WWakeupA(e.arg)
+               [] e.ev = "WWakeupB" -> WWakeupB(e.arg)
                [] e.ev = "ExecStart" -> ExecStart(e.arg)
                [] e.ev = "ExecStep" -> ExecStep(e.arg)
                [] e.ev = "DRecvJoinPointReached" -> DRecvJoinPointReached(e.arg)
